@@ -29,7 +29,9 @@ def _work(args):
     for case in chunk:
         try:
             fn(case, common, out)
-        except Exception:
+        except KeyboardInterrupt:
+            raise
+        except BaseException:  # includes cases.HarnessError
             out["errors"].append(f"case {case!r}: " + traceback.format_exc()[-800:])
     return out
 
